@@ -413,20 +413,21 @@ func (c *Client) Recv() []Rx {
 			if n == 0 {
 				break
 			}
-			out = append(out, decode(c.rxbuf[:n:n], &net.UDPAddr{IP: c.w.SrvAddr.IP, Port: c.w.SrvAddr.Port}))
+			out = append(out, Decode(c.rxbuf[:n:n], &net.UDPAddr{IP: c.w.SrvAddr.IP, Port: c.w.SrvAddr.Port}))
 			c.rxbuf = c.rxbuf[n:]
 		}
 
 		return out
 	}
 	for _, d := range c.Sock.Drain() {
-		out = append(out, decode(d.Data, d.Src))
+		out = append(out, Decode(d.Data, d.Src))
 	}
 
 	return out
 }
 
-func decode(b []byte, from *net.UDPAddr) Rx {
+// Decode classifies one received datagram or frame.
+func Decode(b []byte, from *net.UDPAddr) Rx {
 	r := Rx{From: from, Raw: b}
 	if len(b) >= 1 && b[0]&0xC0 == 0 {
 		m, err := wire.Parse(b)
